@@ -7,3 +7,11 @@
      false = anywhere else (e.g. where the model type object is first created): the options of
              the cdef() that first MENTIONS the tag would apply. *)
 Definition packed_from_defining_cdef : bool := true.
+
+(* Second fact, from /repo/src/cffi/api.py FFI._cdef: the loop that re-completes structs which went
+   from opaque to defined is `for tp in finishlist: tp.finish_backend_type(self, finishlist)`, i.e. it
+   iterates the very list that finish_backend_type GROWS (it appends every struct/union whose backend
+   type it had to create lazily, those reached only through pointer fields), so these get completed
+   too.  false = it iterates a copy/other expression: pointer targets first declared in the defining
+   cdef() would stay unrealized ("ctype 'struct T' is of unknown size"). *)
+Definition completion_loop_iterates_growing_list : bool := true.
